@@ -307,54 +307,64 @@ def wadvance (st : State) (i : Nat) : Nat → Except String State
       else .ok st
     | none => .error s!"no worker {i} in the model"
 
-def wsync (st : State) (i : Nat) (fn act res : String) : Except String State := do
-  let sub0 := st.wsub.getD i 0
-  -- timer housekeeping that is no step of the model: `NewTimer(0)` at the start of the goroutine (4), then — also
-  -- after leaving the group — `if !idleTimer.Stop() { <-idleTimer.C }` (6: Stop, 7: the drain of a timer that had fired)
+/-! `wsync` is split into `wtimer` / `wnote` / `wact` (and the helpers `wbad`, `wgo`, `wgoSnap`) so that each part is a small
+term: `Driver/Ev/PoolSound.lean` proves them sound one by one. -/
+
+/-- timer housekeeping that is no step of the model: `NewTimer(0)` at the start of the goroutine (4), then — also
+    after leaving the group — `if !idleTimer.Stop() { <-idleTimer.C }` (6: Stop, 7: the drain of a timer that had fired) -/
+def wtimer (st : State) (i sub0 : Nat) (fn act res : String) : Except String State :=
   if sub0 = 4 then
-    if act = "NewTimer" then return setW st i 6
-    else throw s!"worker {i} logged {fn}:{act} ({res}) where a new goroutine creates its timer"
-  if sub0 = 6 then
-    if isTimerStop act ∧ res = "true" then return setW st i 0
-    else if isTimerStop act ∧ res = "false" then return setW st i 7
-    else throw s!"worker {i} logged {fn}:{act} ({res}) where it stops its idle timer"
-  if sub0 = 7 then
-    if isTimerDrain act then return setW st i 0
-    else throw s!"worker {i} logged {fn}:{act} ({res}) where it drains its idle timer"
-  let st ← wadvance st i 100
-  match st.m.workers[i]? with
-  | none => throw s!"no worker {i} in the model"
-  | some w =>
-  let sub := st.wsub.getD i 0
-  let bad : Except String State :=
-    .error s!"worker {i} logged {fn}:{act} ({res}) where the model is at {repr w.pc} (step part {sub})"
-  let go (a : WAct) : Except String State := fire st (.w i a) s!"{fn}:{act} by worker {i} at {repr w.pc}"
-  let goSnap (a : WAct) : Except String State := do
-    let st ← go a
-    checkGo st res
-    pure st
-  -- harness notes made by the task body
-  if act = "" then
-    match w.pc, fn with
-    | .running, "trun" =>
-      if sub ≠ 0 then bad
-      else if res.toNat? ≠ some (st.keys.getD w.task 0) then
-        throw s!"worker {i} runs task {res}, the model's worker received task {st.keys.getD w.task 0}"
-      else pure (setW st i 5)
-    | .running, "tpanic" =>
-      if sub ≠ 5 then bad else do
-        let st ← go .taskPanic
-        pure (setW st i 0)
-    | .running, "tend" =>
-      if sub ≠ 5 then bad else do
-        -- a blocking task ended: released by the harness, by the interrupt context or by its own timeout
-        let st ← match st.m.tasks[w.task]? with
-          | some tk => if tk.beh = .block ∧ tk.released = false then fire st (.c 0 (.release w.task)) "release" else pure st
-          | none => pure st
-        let st ← fire st (.w i .taskRet) s!"end of the task of worker {i}"
-        pure (setW st i 0)
-    | _, _ => bad
+    if act = "NewTimer" then .ok (setW st i 6)
+    else .error s!"worker {i} logged {fn}:{act} ({res}) where a new goroutine creates its timer"
+  else if sub0 = 6 then
+    if isTimerStop act ∧ res = "true" then .ok (setW st i 0)
+    else if isTimerStop act ∧ res = "false" then .ok (setW st i 7)
+    else .error s!"worker {i} logged {fn}:{act} ({res}) where it stops its idle timer"
   else
+    if isTimerDrain act then .ok (setW st i 0)
+    else .error s!"worker {i} logged {fn}:{act} ({res}) where it drains its idle timer"
+
+def wbad (st : State) (i : Nat) (w : Worker) (fn act res : String) : Except String State :=
+  .error s!"worker {i} logged {fn}:{act} ({res}) where the model is at {repr w.pc} (step part {st.wsub.getD i 0})"
+
+def wgo (st : State) (i : Nat) (w : Worker) (fn act : String) (a : WAct) : Except String State :=
+  fire st (.w i a) s!"{fn}:{act} by worker {i} at {repr w.pc}"
+
+def wgoSnap (st : State) (i : Nat) (w : Worker) (fn act res : String) (a : WAct) : Except String State := do
+  let st ← wgo st i w fn act a
+  checkGo st res
+  pure st
+
+/-- harness notes made by the task body (`act = ""`) -/
+def wnote (st : State) (i : Nat) (w : Worker) (fn act res : String) : Except String State :=
+  let sub := st.wsub.getD i 0
+  let bad : Except String State := wbad st i w fn act res
+  match w.pc, fn with
+  | .running, "trun" =>
+    if sub ≠ 0 then bad
+    else if res.toNat? ≠ some (st.keys.getD w.task 0) then
+      throw s!"worker {i} runs task {res}, the model's worker received task {st.keys.getD w.task 0}"
+    else pure (setW st i 5)
+  | .running, "tpanic" =>
+    if sub ≠ 5 then bad else do
+      let st ← wgo st i w fn act .taskPanic
+      pure (setW st i 0)
+  | .running, "tend" =>
+    if sub ≠ 5 then bad else do
+      -- a blocking task ended: released by the harness, by the interrupt context or by its own timeout
+      let st ← match st.m.tasks[w.task]? with
+        | some tk => if tk.beh = .block ∧ tk.released = false then fire st (.c 0 (.release w.task)) "release" else pure st
+        | none => pure st
+      let st ← fire st (.w i .taskRet) s!"end of the task of worker {i}"
+      pure (setW st i 0)
+  | _, _ => bad
+
+/-- a logged action of worker `i`, whose model worker `w` is at `w.pc` -/
+def wact (st : State) (i : Nat) (w : Worker) (fn act res : String) : Except String State :=
+  let sub := st.wsub.getD i 0
+  let bad : Except String State := wbad st i w fn act res
+  let go (a : WAct) : Except String State := wgo st i w fn act a
+  let goSnap (a : WAct) : Except String State := wgoSnap st i w fn act res a
   match w.pc, sub, act with
   -- the select
   | .sel, 0, "Select:Recv(queue)" =>
@@ -434,6 +444,16 @@ def wsync (st : State) (i : Nat) (fn act res : String) : Except String State := 
       pure (setW st i 0)
   | .postUnlock, 0, "Unlock(mutex)" => goSnap .postUnlock
   | _, _, _ => bad
+
+def wsync (st : State) (i : Nat) (fn act res : String) : Except String State :=
+  let sub0 := st.wsub.getD i 0
+  if sub0 = 4 ∨ sub0 = 6 ∨ sub0 = 7 then wtimer st i sub0 fn act res else
+  match wadvance st i 100 with
+  | .error e => .error e
+  | .ok st =>
+    match st.m.workers[i]? with
+    | none => .error s!"no worker {i} in the model"
+    | some w => if act = "" then wnote st i w fn act res else wact st i w fn act res
 
 /-- an event of a goroutine the library made: bind a new name to the oldest worker without goroutine -/
 def syncG (st : State) (gid : String) (fn act res : String) : Except String State :=
